@@ -1218,10 +1218,11 @@ async def register_data(
 def remap_path(
     path_processor: ModuleType, path: str, old_dir: str, new_dir: str
 ) -> str:
-    if ":/" in path:
-        scheme = urllib.parse.urlsplit(path).scheme
-        if scheme == "file":
-            return "file://{}".format(
+    # Only strings with an actual URL scheme are URLs: a plain path can contain `:/`
+    scheme = urllib.parse.urlsplit(path).scheme if ":/" in path else ""
+    if scheme == "file":
+        return "file://{}".format(
+            urllib.parse.quote(
                 path_processor.join(
                     new_dir,
                     *os.path.relpath(urllib.parse.unquote(path[7:]), old_dir).split(
@@ -1229,12 +1230,14 @@ def remap_path(
                     ),
                 )
             )
-        else:
-            return path
+        )
+    elif scheme:
+        return path
     else:
+        # Plain paths are not percent-encoded
         return path_processor.join(
             new_dir,
-            *os.path.relpath(urllib.parse.unquote(path), old_dir).split(os.path.sep),
+            *os.path.relpath(path, old_dir).split(os.path.sep),
         )
 
 
